@@ -133,10 +133,12 @@ class SRTWriter(BaseWriter):
             for node in caption.nodes:
                 new_content = self._recreate_line(new_content, node)
 
-            # Eliminate excessive line breaks
-            new_content = new_content.strip()
-            while '\n\n' in new_content:
-                new_content = new_content.replace('\n\n', '\n')
+            # Eliminate excessive line breaks, and the lines that hold nothing
+            # but white space (e.g. a non-breaking space standing for an empty
+            # line): a blank-looking line ends the cue for SRT readers
+            new_content = '\n'.join(
+                line for line in new_content.strip().split('\n')
+                if line.strip())
 
             srt += f"{new_content}\n\n"
             count += 1
